@@ -6,7 +6,7 @@ from pyvc.engine import Engine
 
 META = _pipeline.meta('C09')
 
-DEDUCTIVE = ["vsg.rule_list.rule_list.fix", "vsg.vhdlFile.vhdlFile.vhdlFile.fix_blank_lines", "vsg.vhdlFile.vhdlFile.vhdlFile.fix_trailing_whitespace", "vsg.vhdlFile.utils.fix_blank_lines", "vsg.vhdlFile.utils.fix_trailing_whitespace"]
+DEDUCTIVE = ["vsg.rule_list.rule_list.fix", "vsg.rule_list.enforce_prerequisites", "vsg.rule_list.filter_out_disabled_rules", "vsg.rule_list.rule_list.get_rules_in_phase", "vsg.rule_list.rule_list.get_rules_in_subphase", "vsg.vhdlFile.vhdlFile.vhdlFile.fix_blank_lines", "vsg.vhdlFile.vhdlFile.vhdlFile.fix_trailing_whitespace", "vsg.vhdlFile.utils.fix_blank_lines", "vsg.vhdlFile.utils.fix_trailing_whitespace"]
 
 
 def run():
@@ -15,4 +15,15 @@ def run():
     if DEDUCTIVE:
         c.deductive(DEDUCTIVE)
     _pipeline.pipeline_part(c, "C09")
+    # the order inside a sub-phase (rules that name prerequisites run behind all others, whatever is disabled or re-assigned) is
+    # what makes one pass enough for them: the same stand-in as C13, the contract text on the real rule_list
+    from bounded import corpus, gating
+    from pyvc.checklib import Finding
+
+    n = 48 if c.tier == "quick" else 600
+    res = corpus.pmap(gating.one_scenario, [c.seed * 100000 + 3 * i for i in range(n)], chunksize=2)
+    c.bounded["rule_order_scenarios"] = {"evaluations": len(res), "distinct_nontrivial": len({repr(r[2]) for r in res}), "rule": "real rule_list configured through the real configure() with the prerequisites of every rule that names some disabled or moved to another phase / sub-phase; the trace of rule_list.fix compared with the contract's fix_phases (prerequisite holders last in their sub-phase)"}
+    for seed, out, info in [r for r in res if r[1]][:1]:
+        which, why = out[0]
+        c.findings.append(Finding("bounded", "gating:" + which, why, {"scenario_seed": seed, "scenario": info, "observed": why, "how_to_rerun": "cd /verif && /venv/bin/python -c 'from bounded import gating; print(gating.one_scenario(%d))'" % seed}, "seed=%d" % seed))
     return c.finish({"explanation": META["text"]})
